@@ -24,7 +24,7 @@ var l0Predicate = regexp.MustCompile(`^!?\$[\w.()]*\.(Is|Has|Requires)[A-Za-z]*\
 // does not mention, so it is a free variable of the truth table.
 var l0Measure = regexp.MustCompile(`^\((` + l0Path + `|len\(` + l0Path + `\)|\d+) (==|>=|>) (` + l0Path + `|len\(` + l0Path + `\)|\d+)\)$`)
 
-const l0Path = `\$[A-Za-z_]\w*(?:\.[A-Za-z_]\w*(?:\(\))?)*(?:\[\d+\])?`
+const l0Path = `\$[A-Za-z_]\w*(?:\.[A-Za-z_]\w*(?:\(\))?)*(?:\[(?:\d+|\(len\(\$[\w.]+\) - 1\))\])?`
 
 type l0Entry struct {
 	Func    string            // function key
@@ -202,6 +202,20 @@ func L0(rc *RC, only func(fn string) bool) {
 				continue
 			}
 		}
+		// a fact about one element is not free of a table atom about all of them:
+		// allones(X) implies (X[k] == 1); assignments that contradict it describe no tensor
+		type implied struct{ all, elem string }
+		var axioms []implied
+		for a := range e.Atoms {
+			if strings.HasPrefix(a, "allones(") && strings.HasSuffix(a, ")") {
+				x := a[len("allones(") : len(a)-1]
+				for _, ex := range extra {
+					if strings.HasPrefix(ex, "("+x+"[") && strings.HasSuffix(ex, "] == 1)") {
+						axioms = append(axioms, implied{a, ex})
+					}
+				}
+			}
+		}
 		// truth table
 		n := len(e.Vars)
 		var counter string
@@ -231,6 +245,15 @@ func L0(rc *RC, only func(fn string) bool) {
 			}
 			for i, a := range extra {
 				env[a] = m&(1<<(n+i)) != 0
+			}
+			contradicts := false
+			for _, ax := range axioms {
+				if env[ax.all] && !env[ax.elem] {
+					contradicts = true
+				}
+			}
+			if contradicts {
+				continue
 			}
 			got, want := f.Eval(env), e.Spec(v)
 			bad := got != want
